@@ -31,7 +31,7 @@ class PoolGen:
         self.linked = {}
         self.w = dict(sleep=10, update=30, peer=12, reconnect=5, close=3, reopen=3, addnode=4, withdraw=3,
                       deposit=2, forged=8, mode=3, credit=2, stale=2, account=1, legacy=2, client=1, host=1, stats=1,
-                      settlemode=1, burst=0, sburst=0, wburst=0, status=2, forgedrun=1)
+                      settlemode=1, burst=0, sburst=0, wburst=0, status=2, forgedrun=1, connectdrop=0)
         if weights:
             self.w.update(weights)
         self.cfg = cfg or {}
@@ -369,6 +369,17 @@ class PoolGen:
                 k = r.choice(sorted(self.open))
                 self.emit({"op": "Close", "conn": k})
                 del self.open[k]
+        elif kind == "connectdrop":
+            # a host (re)registers and its connection ends before the pool's reply
+            h = r.choice(HOSTS)
+            k = self.conn_for(h, fresh=r.random() < 0.5)
+            owner = self.used_by_host.get(k)
+            if owner not in (None, h):
+                k = self.conn_for(h, True)
+            self.used_by_host[k] = h
+            op = {"op": "ConnectDrop", "conn": k, "full": True, "kind": "geth", "payout": "", "uri": ""}
+            self.emit(self.signed(op, h))
+            self.open.pop(k, None)
         elif kind == "reopen":
             self.open_conn()
         elif kind == "addnode":
